@@ -9,6 +9,7 @@ Quantifiers: every item satisfying the decidable `Item.WF` (all shipped items do
 import GeckoModel.Proofs.AccessorFrame
 import GeckoModel.Properties.C18
 import GeckoModel.Proofs.Coop
+import GeckoModel.Proofs.CoopEquiv
 import GeckoModel.Generated.Skeletons
 
 namespace GeckoModel.C02
@@ -240,6 +241,22 @@ theorem write_paths_are_the_same_code :
       Skeletons.sk_driver_spastruct__GeckoStructure_set_value ∧
     Skeletons.sk_driver_async_spastruct__GeckoAsyncStructure_set_value = Skeletons.sk_driver_spastruct__GeckoStructure_set_value := by
   decide +kernel
+
+/-- and therefore in behaviour: every trace of the blocking item write IS a trace of the awaitable one (its await completing), event
+for event and with the same way of ending - `twin_refines` instantiated through the equality above; for the temperature item up to
+the association of `;`, which does not change traces (`rassoc_equiv`) -/
+theorem blocking_write_refines_awaitable {t' : List Coop.Ev} {o : Coop.Out}
+    (h : Coop.Run Skeletons.sk_driver_accessor__GeckoStructAccessor__set_value t' o) :
+    ∃ t, Coop.Run Skeletons.sk_driver_accessor__GeckoStructAccessor_async_set_value t o ∧ t' = t.map (Coop.twinEv ren) := by
+  rw [← write_paths_are_the_same_code.1] at h
+  exact Coop.twin_refines ren _ _ _ h
+
+theorem blocking_temperature_write_refines_awaitable {t' : List Coop.Ev} {o : Coop.Out}
+    (h : Coop.Run Skeletons.sk_driver_accessor__GeckoTempStructAccessor__set_value t' o) :
+    ∃ t, Coop.Run Skeletons.sk_driver_accessor__GeckoTempStructAccessor_async_set_value t o ∧ t' = t.map (Coop.twinEv ren) := by
+  have h1 := (Coop.rassoc_equiv _ t' o).2 h
+  rw [← write_paths_are_the_same_code.2.1] at h1
+  exact Coop.twin_refines ren _ _ _ ((Coop.rassoc_equiv _ t' o).1 h1)
 
 /-- the structures' hand-offs are pure delegation and the items' write methods keep nothing on the item: no attribute of `self` is
 assigned on any of the six methods, so a write cannot be influenced by an earlier one (whether that one completed, failed or was
